@@ -34,6 +34,10 @@ theorem accessor_sources :
     shape_nsamples = "len(self.t)" := by
   decide +kernel
 
+/-- the walk-back loop of `_first_sample_with_same_time` tests `i > 0 and t[i-1] == t[i]` -/
+theorem first_same_test (i : Int) (a b : Rat) : firstSameCond i a b = true ↔ 0 < i ∧ a = b := by
+  simp [firstSameCond]
+
 /-- the three documented policies are accepted and dispatched to their own lookup; the query is first
 converted to the units of the sample times -/
 theorem policy_dispatch :
@@ -146,12 +150,12 @@ theorem results_carry_data_units (cx : TrajCtx) :
 /-- index form: accepted exactly in `[0, nspecies)`; label form: the first species with that label, `None`
 (⇒ the accessor raises) exactly when there is none; the object form reads the label only -/
 theorem species_resolution (labels : List String) :
-    (∀ i, i < labels.length → speciesIndex labels (.idx i) = some i) ∧
-    (∀ i : Int, i < 0 ∨ (labels.length : Int) ≤ i → speciesIndex labels (.idx i) = none) ∧
-    (∀ s k, speciesIndex labels (.label s) = some k →
+    (∀ i, i < labels.length → trajSpeciesIndex labels (.idx i) = some i) ∧
+    (∀ i : Int, i < 0 ∨ (labels.length : Int) ≤ i → trajSpeciesIndex labels (.idx i) = none) ∧
+    (∀ s k, trajSpeciesIndex labels (.label s) = some k →
         ∃ h : k < labels.length, labels[k] = s ∧ ∀ j, ∀ hj : j < k, labels[j] ≠ s) ∧
-    (∀ s, speciesIndex labels (.label s) = none ↔ s ∉ labels) ∧
-    (∀ s, speciesIndex labels (.obj s) = speciesIndex labels (.label s)) :=
+    (∀ s, trajSpeciesIndex labels (.label s) = none ↔ s ∉ labels) ∧
+    (∀ s, trajSpeciesIndex labels (.obj s) = trajSpeciesIndex labels (.label s)) :=
   ⟨speciesIndex_idx labels, speciesIndex_idx_none labels, fun s => (speciesIndex_label labels s).1,
    fun s => (speciesIndex_label labels s).2.1, fun s => (speciesIndex_label labels s).2.2⟩
 
@@ -182,62 +186,32 @@ theorem infeq_spec (ts : List Rat) (t : Rat) (hs : ts.Pairwise (· ≤ ·)) :
     (∀ r, sampleInfeq ts t = some r → ∃ h : r < ts.length, ts[r] ≤ t ∧
         ∀ j, ∀ hj : j < ts.length, r < j → t < ts[j]) := Strengths.infeq_spec ts t hs
 
-/- FULL STATEMENT (does not hold for the code; see the witness below and known_findings.txt):
-   for every non-decreasing `ts`: `sampleSupeq ts t = some r → t ≤ ts[r] ∧ ∀ j < r, ts[j] < t`.
-   What is missing: when `t` equals the last sample time and that time is duplicated, the shortcut
-   `if t == t[last] : return last` returns the last duplicate, not the first sample not before `t`. -/
-/-- `supeq` on non-decreasing times: `None` exactly when every sample is before `t`; otherwise a sample
-not before `t` whose *time* is the earliest such time -/
-theorem supeq_spec_partial (ts : List Rat) (t : Rat) (hs : ts.Pairwise (· ≤ ·)) :
+/-- `supeq`: the first sample not before `t` (no earlier sample is `≥ t`); `None` exactly when every sample is before `t`.
+Full statement, every non-decreasing time list (repeated times included). -/
+theorem supeq_spec (ts : List Rat) (t : Rat) (hs : ts.Pairwise (· ≤ ·)) :
     (sampleSupeq ts t = none ↔ ∀ i, ∀ h : i < ts.length, ts[i] < t) ∧
     (∀ r, sampleSupeq ts t = some r → ∃ h : r < ts.length, t ≤ ts[r] ∧
-        ∀ j, ∀ hj : j < ts.length, ts[j] < ts[r] → ts[j] < t) := Strengths.supeq_spec ts t hs
+        ∀ j, ∀ hj : j < ts.length, j < r → ts[j] < t) := Strengths.supeq_spec ts t hs
 
-/-- `supeq` on strictly increasing times: the first sample not before `t` (full statement) -/
-theorem supeq_spec_strict (ts : List Rat) (t : Rat) (hs : ts.Pairwise (· < ·)) :
-    (sampleSupeq ts t = none ↔ ∀ i, ∀ h : i < ts.length, ts[i] < t) ∧
-    (∀ r, sampleSupeq ts t = some r → ∃ h : r < ts.length, t ≤ ts[r] ∧
-        ∀ j, ∀ hj : j < ts.length, j < r → ts[j] < t) := by
-  have hle : ts.Pairwise (· ≤ ·) := hs.imp le_of_lt
-  obtain ⟨h1, h2⟩ := Strengths.supeq_spec ts t hle
-  refine ⟨h1, fun r hr => ?_⟩
-  obtain ⟨h, h3, h4⟩ := h2 r hr
-  exact ⟨h, h3, fun j hj hjr => h4 j hj (sorted_lt hs hj h hjr)⟩
-
-/-- the recorded counter-instance of the full `supeq` statement: times `[0,1,1]`, query `1` -/
-example : sampleSupeq [0, 1, 1] 1 = some 2 ∧ ¬ ((1 : Rat) < 1) := by decide +kernel
-
-/- FULL STATEMENT (does not hold for the code; witness below): for every non-decreasing `ts`,
-   `sampleClosest ts t = some r → (∀ j, |t − ts[r]| ≤ |t − ts[j]|) ∧ (∀ j, |t − ts[j]| = |t − ts[r]| → r ≤ j)`.
-   What is missing: among samples with the *same* time the code returns the last one (`t ≥ t[last]`
-   shortcut, and `return i` for the last `i` with `t[i] ≤ t`), not the earliest index. -/
-/-- `closest` on non-decreasing times: `None` exactly when there is no sample; otherwise a sample at
-minimal distance, and among equidistant samples one with the earliest *time* -/
-theorem closest_spec_partial (ts : List Rat) (t : Rat) (hs : ts.Pairwise (· ≤ ·)) :
+/-- `closest`: a sample at minimal distance, and among equidistant samples (including samples sharing one time) the one
+with the smallest index — ties to the earlier; `None` exactly when there is no sample.
+Full statement, every non-decreasing time list. -/
+theorem closest_spec (ts : List Rat) (t : Rat) (hs : ts.Pairwise (· ≤ ·)) :
     (sampleClosest ts t = none ↔ ts = []) ∧
     (∀ r, sampleClosest ts t = some r → ∃ h : r < ts.length,
         (∀ j, ∀ hj : j < ts.length, |t - ts[r]| ≤ |t - ts[j]|) ∧
-        (∀ j, ∀ hj : j < ts.length, |t - ts[j]| = |t - ts[r]| → ts[r] ≤ ts[j])) := Strengths.closest_spec ts t hs
+        (∀ j, ∀ hj : j < ts.length, |t - ts[j]| = |t - ts[r]| → r ≤ j)) := Strengths.closest_spec ts t hs
 
-/-- `closest` on strictly increasing times: minimal distance, ties to the earlier sample (full statement) -/
-theorem closest_spec_strict (ts : List Rat) (t : Rat) (hs : ts.Pairwise (· < ·)) :
-    (sampleClosest ts t = none ↔ ts = []) ∧
-    (∀ r, sampleClosest ts t = some r → ∃ h : r < ts.length,
-        (∀ j, ∀ hj : j < ts.length, |t - ts[r]| ≤ |t - ts[j]|) ∧
-        (∀ j, ∀ hj : j < ts.length, |t - ts[j]| = |t - ts[r]| → r ≤ j)) := by
-  have hle : ts.Pairwise (· ≤ ·) := hs.imp le_of_lt
-  obtain ⟨h1, h2⟩ := Strengths.closest_spec ts t hle
-  refine ⟨h1, fun r hr => ?_⟩
-  obtain ⟨h, h3, h4⟩ := h2 r hr
-  refine ⟨h, h3, fun j hj he => ?_⟩
-  by_contra hc
-  exact absurd (h4 j hj he) (not_le.2 (sorted_lt hs hj h (not_le.1 hc)))
+/-- `_first_sample_with_same_time(k)` walks back to the first index of the run of equal times ending at `k` -/
+theorem first_sample_with_same_time (ts : List Rat) (k : Nat) (hk : k < ts.length) :
+    ∀ r, firstSame ts k = r → ∃ hr : r ≤ k, ts[r]'(by omega) = ts[k] ∧
+      (∀ j, ∀ hj : j < ts.length, r ≤ j → j ≤ k → ts[j] = ts[k]) ∧
+      (∀ hpos : 0 < r, ts[r - 1]'(by omega) ≠ ts[k]) := firstSame_spec ts k hk
 
-/-- the recorded counter-instance of the full `closest` statement: times `[0,1,1]`, query `1` -/
-example : sampleClosest [0, 1, 1] 1 = some 2 ∧ |(1 : Rat) - [0, 1, 1][1]| = |(1 : Rat) - [0, 1, 1][2]| := by
-  constructor
-  · decide +kernel
-  · rfl
+/-- repeated sample times (the former counter-instance `[0,1,1]`, query `1`): earliest index for `closest` and `supeq`,
+latest for `infeq` -/
+example : sampleClosest [0, 1, 1] 1 = some 1 ∧ sampleSupeq [0, 1, 1] 1 = some 1 ∧ sampleInfeq [0, 1, 1] 1 = some 2 ∧
+    sampleClosest [0, 1, 1, 2] (3/2) = some 1 ∧ sampleClosest [0, 1, 1] 5 = some 1 := by decide +kernel
 
 /-! ## any time unit -/
 
